@@ -1,3 +1,174 @@
 import Usual.Common
-/-! Model driver for C07 (stub: not built yet). -/
-def main : IO Unit := IO.println "stub"
+import Usual.C07.AATree
+/-! Model driver for C07 (AA-tree).  Line protocol, see harness/C07/h.c:
+
+    ins K | rem K | find K | walk in|pre|post | destroy | count        (K: -?[0-9]{1,18})
+    perms n ilo ihi jlo jhi      (range-hash over insertion order × removal order of 1..n)
+
+Mutating ops answer
+    `<r> c=<count> aa=<0|1> hb=<0|1> in=<keys> rel=<keys> ## <shape>`
+where `aa` = the AA level rules hold, `hb` = height ≤ 2·log2(n+1), `in` = in-order keys,
+`rel` = keys passed to the release callback during this op, shape = pre-order dump
+`(key:level left right)` with `.` for NIL.  Lists longer than 40 are printed as
+`#<n>:<fnv1a-64 hex>`.  `destroy`: `rel` sorted ascending, and ` ord=<keys in call order>`
+appended to the internal part. -/
+open Usual Usual.C07
+
+namespace C07Drv
+
+abbrev K := Int
+
+def cmpK (a b : K) : Ordering := compare a b
+
+def parseKey (s : String) : Option K :=
+  let cs := s.toList
+  let (neg, ds) := match cs with
+    | '-' :: rest => (true, rest)
+    | _ => (false, cs)
+  if ds.isEmpty || ds.length > 18 || !ds.all Char.isDigit then none
+  else
+    let n := ds.foldl (fun acc c => acc * 10 + (c.toNat - '0'.toNat)) 0
+    some (if neg then - (Int.ofNat n) else Int.ofNat n)
+
+def fnvInit : UInt64 := 0xcbf29ce484222325
+
+/-- same as `hc_fnv` in harness/common/hcommon.h: 8 bytes little endian -/
+def fnv (h : UInt64) (v : UInt64) : UInt64 :=
+  let step (h : UInt64) (i : Nat) : UInt64 :=
+    (h ^^^ ((v >>> (UInt64.ofNat (8 * i))) &&& 0xff)) * 0x100000001b3
+  [0, 1, 2, 3, 4, 5, 6, 7].foldl step h
+
+def keyBits (k : K) : UInt64 := UInt64.ofNat (k % 18446744073709551616).toNat
+
+def hex64 (v : UInt64) : String :=
+  let n := v.toNat
+  String.ofList ((List.range 16).map fun i => hexDigit ((n / 16 ^ (15 - i)) % 16))
+
+def limit : Nat := 40
+
+def showKeys (l : List K) : String :=
+  if l.isEmpty then "-"
+  else if l.length ≤ limit then ",".intercalate (l.map toString)
+  else s!"#{l.length}:{hex64 (l.foldl (fun h k => fnv h (keyBits k)) fnvInit)}"
+
+def shapeStr : T K → String
+  | .nil => "."
+  | .node l k v r => s!"({k}:{v} {shapeStr l} {shapeStr r})"
+
+def shapeHash : T K → UInt64 → UInt64
+  | .nil, h => fnv h 0
+  | .node l k v r, h => shapeHash r (shapeHash l (fnv (fnv (fnv h 1) (keyBits k)) (UInt64.ofNat v)))
+
+def showShape (t : T K) : String :=
+  let n := size t
+  if n ≤ limit then shapeStr t else s!"#{n}:{hex64 (shapeHash t fnvInit)}"
+
+def b01 (b : Bool) : String := if b then "1" else "0"
+
+def mutObs (r : String) (s : State K) (rel : List K) : String :=
+  s!"{r} c={s.count} aa={b01 (aa s.root)} hb={b01 (heightOk s.root)} in={showKeys (toList s.root)} rel={showKeys rel}"
+
+def mutLine (r : String) (s : State K) (rel : List K) : String :=
+  s!"{mutObs r s rel} ## {showShape s.root}"
+
+def doOp (s : State K) (o : Op K) : State K × String :=
+  let n0 := s.log.length
+  let (s', out) := step cmpK s o
+  -- keep only what this op released (the model's log is cumulative)
+  let rel := s'.log.drop n0
+  let s'' : State K := { s' with log := [] }
+  match o, out with
+  | .ins _, .linked b => (s'', mutLine s!"ins={b01 b}" s'' rel)
+  | .rem _, _ => (s'', mutLine "rem" s'' rel)
+  | .destroy, _ =>
+      -- which nodes are released is observable, the visiting order of destroy is internal
+      (s'', s!"{mutLine "destroy" s'' (rel.mergeSort (fun a b => decide (a ≤ b)))} ord={showKeys rel}")
+  | .find _, .found none => (s'', "f=0")
+  | .find _, .found (some x) => (s'', s!"f=1:{x}")
+  | .walk _, .keys l => (s'', s!"w={showKeys l}")
+  | .count, .num n => (s'', s!"c={n}")
+  | _, _ => (s'', "model-error")
+
+/-! ### range-hash protocol: `perms n ilo ihi jlo jhi` -/
+
+def fnvStr (h : UInt64) (s : String) : UInt64 :=
+  s.foldl (fun h c => (h ^^^ UInt64.ofNat c.toNat) * 0x100000001b3) h
+
+def factorial : Nat → Nat
+  | 0 => 1
+  | n + 1 => (n + 1) * factorial n
+
+/-- idx-th permutation of the list in lexicographic order (factoradic digits) -/
+def nthPermAux : Nat → List Nat → Nat → List Nat
+  | 0, _, _ => []
+  | m + 1, avail, idx =>
+    let f := factorial m
+    let d := idx / f
+    match avail[d]? with
+    | none => []
+    | some x => x :: nthPermAux m (avail.eraseIdx d) (idx % f)
+
+def nthPerm (n idx : Nat) : List Nat := nthPermAux n ((List.range n).map (· + 1)) idx
+
+/-- one op in hash mode: new state and hashes -/
+def hashOp (acc : State K × UInt64 × UInt64) (o : Op K) : State K × UInt64 × UInt64 :=
+  let (s, ho, hi) := acc
+  let (s', out) := step cmpK s o
+  let rel := s'.log
+  let s'' : State K := { s' with log := [] }
+  let r := match o, out with
+    | .ins _, .linked b => s!"ins={b01 b}"
+    | _, _ => "rem"
+  (s'', fnvStr (fnvStr ho (mutObs r s'' rel)) "\n", fnvStr (fnvStr hi (showShape s''.root)) "\n")
+
+def permsPair (n : Nat) (h : UInt64 × UInt64) (i j : Nat) : UInt64 × UInt64 :=
+  let pi := nthPerm n i
+  let pj := nthPerm n j
+  let ops : List (Op K) := pi.map (fun k => Op.ins (Int.ofNat k)) ++ pj.map (fun k => Op.rem (Int.ofNat k))
+  let (_, ho, hi) := ops.foldl hashOp ((init : State K), h.1, h.2)
+  (ho, hi)
+
+def permsRange (n ilo ihi jlo jhi : Nat) : UInt64 × UInt64 :=
+  (List.range (ihi - ilo)).foldl (fun h di =>
+    (List.range (jhi - jlo)).foldl (fun h dj => permsPair n h (ilo + di) (jlo + dj)) h)
+    (fnvInit, fnvInit)
+
+def parseNat (s : String) : Option Nat :=
+  let cs := s.toList
+  if cs.isEmpty || cs.length > 9 || !cs.all Char.isDigit then none
+  else some (cs.foldl (fun acc c => acc * 10 + (c.toNat - '0'.toNat)) 0)
+
+def doPerms (a b c d e : String) : Option String :=
+  match parseNat a, parseNat b, parseNat c, parseNat d, parseNat e with
+  | some n, some ilo, some ihi, some jlo, some jhi =>
+    if n < 1 || n > 9 || ilo > ihi || jlo > jhi || ihi > factorial n || jhi > factorial n then none
+    else
+      let (ho, hi) := permsRange n ilo ihi jlo jhi
+      some s!"ph={hex64 ho} ## {hex64 hi}"
+  | _, _, _, _, _ => none
+
+def stepLine (s : State K) (line : String) : State K × String :=
+  match words line with
+  | ["#case"] => (init, "#case")
+  | ["ins", k] => match parseKey k with
+    | some k => doOp s (.ins k)
+    | none => (s, "bad-op")
+  | ["rem", k] => match parseKey k with
+    | some k => doOp s (.rem k)
+    | none => (s, "bad-op")
+  | ["find", k] => match parseKey k with
+    | some k => doOp s (.find k)
+    | none => (s, "bad-op")
+  | ["walk", "in"] => doOp s (.walk .inOrder)
+  | ["walk", "pre"] => doOp s (.walk .preOrder)
+  | ["walk", "post"] => doOp s (.walk .postOrder)
+  | ["destroy"] => doOp s .destroy
+  | ["count"] => doOp s .count
+  | ["perms", a, b, c, d, e] => match doPerms a b c d e with
+    | some r => (init, r)
+    | none => (s, "bad-op")
+  | _ => (s, "bad-op")
+
+end C07Drv
+
+def main : IO Unit := Usual.runDriver (Usual.C07.init : Usual.C07.State C07Drv.K) C07Drv.stepLine
